@@ -22,6 +22,9 @@ pub enum Op {
     SaveVote { term: u64, node: u64, committed: bool },
     SaveCommitted { term: u64, index: Option<u64> },
     PeerRecord { id: u64 },
+    /// fault: from here on every write that extends beyond `limit` bytes of a file fails with EFBIG
+    /// (RLIMIT_FSIZE, SIGXFSZ ignored) - the file system is full; `limit` = u64::MAX lifts it again
+    FileSizeLimit { limit: u64 },
 }
 
 #[derive(Serialize, Deserialize, Clone, Debug, PartialEq)]
@@ -104,7 +107,17 @@ pub fn gen_plan(seed: u64, scale: u64) -> Plan {
                 0..=4 => {
                     let n = r.range(1, 5);
                     let size = match r.below(6) { 0 => 0, 1 => r.range(1, 20), 2 => r.range(100, 3000), _ => r.range(20, 200) };
-                    ops.push(Op::Append { start: next_index, n, term, size });
+                    if r.chance(0.08) {
+                        // the disk is full while this append runs; afterwards space is back and the caller retries
+                        ops.push(Op::FileSizeLimit { limit: 0 });
+                        ops.push(Op::Append { start: next_index, n, term, size });
+                        ops.push(Op::FileSizeLimit { limit: u64::MAX });
+                        if r.chance(0.7) {
+                            ops.push(Op::Append { start: next_index, n, term, size });
+                        }
+                    } else {
+                        ops.push(Op::Append { start: next_index, n, term, size });
+                    }
                     next_index += n;
                 }
                 5 => {
@@ -209,10 +222,26 @@ pub fn run_child(plan_path: &str, inc_idx: usize) -> i32 {
                     let (peer, addr) = peer_of(*id);
                     peerbook::record(&peers, peer, addr).await
                 }
+                Op::FileSizeLimit { limit } => {
+                    unsafe {
+                        libc::signal(libc::SIGXFSZ, libc::SIG_IGN);
+                        let lim = libc::rlimit { rlim_cur: if *limit == u64::MAX { libc::RLIM_INFINITY } else { *limit as libc::rlim_t }, rlim_max: libc::RLIM_INFINITY };
+                        libc::setrlimit(libc::RLIMIT_FSIZE, &lim);
+                    }
+                    false
+                }
             };
             if ok {
+                // acknowledgements go to the parent through stdout (a pipe: the file-size limit does not apply to it)
+                println!("ACK {}", k);
+                let _ = std::io::stdout().flush();
                 let _ = writeln!(acked_file, "{}", k);
             }
+        }
+        // the limit must not outlive the operations (the clean shutdown below may write)
+        unsafe {
+            let lim = libc::rlimit { rlim_cur: libc::RLIM_INFINITY, rlim_max: libc::RLIM_INFINITY };
+            libc::setrlimit(libc::RLIMIT_FSIZE, &lim);
         }
         if inc.end == "clean" {
             drop(store);
@@ -265,6 +294,7 @@ impl Model {
                 let (peer, addr) = peer_of(*id);
                 self.peers.insert(peer, addr.to_string());
             }
+            Op::FileSizeLimit { .. } => {}
         }
     }
 
